@@ -2,7 +2,10 @@
 
 R1 execute() raises only: cancellation-type exceptions, a RetryExhaustedError
    raised by the operation itself, or an error injected into the caller's own
-   strategy / classifier / sleeper callback
+   strategy / classifier / sleeper callback; conversely an error injected into
+   the strategy or the sleeper (which only the retry loop ever invokes) must
+   leave execute() -- it may not be absorbed and retried as if the operation had
+   failed
 R2 ok <=> the final attempt succeeded; then value *is* that result and
    stop_reason, last_class, last_exception, last_result, cause, next_sleep_s are None
 R3 otherwise stop_reason is in the holds-set, attempts = #invocations, last_class /
